@@ -46,7 +46,7 @@ func okness(s string) string {
 
 func corrOstype(seed uint64, tier string, replay []string) *lib.Result {
 	res := &lib.Result{Property: "C17",
-		Rule: "(1) construction matrix {MemFS, OrefaFS} × requested OSType {Unknown, Linux, Windows} in this binary (tag on or off, as reported by BuildFeatures) against the Lean decision table setOSType; (2) with the tag on: random histories of portable calls (paths built from components under the root / default volume) on the Windows-typed and the Linux-typed instance of each file system in lockstep: success/failure call by call and isomorphic trees (names, types, contents, link counts); a case is one call; distinct non-trivial = distinct (fs, call kind, outcome)"}
+		Rule: "(1) construction matrix {MemFS, OrefaFS} × requested OSType {Unknown, Linux, Windows} in this binary (tag on or off, as reported by BuildFeatures) against the Lean decision table setOSType; (2) with the tag on: random histories of portable calls, symbolic links included (paths built from components under the root / the default volume / for half of the MemFS histories an added volume D:) on the Windows-typed and the Linux-typed instance of each file system in lockstep: success/failure call by call and isomorphic trees (names, types, contents, link counts); a case is one call; distinct non-trivial = distinct (fs, call kind, outcome)"}
 	st := lib.NewStats()
 	tagOn := avfs.BuildFeatures()&avfs.FeatSetOSType != 0
 	tag := "tagoff"
@@ -100,7 +100,7 @@ func corrOstype(seed uint64, tier string, replay []string) *lib.Result {
 	}
 	r := lib.NewRng(seed*911 + 17)
 	seen := map[string]bool{}
-	skip := map[string]bool{"symlink": true, "readlink": true, "evalsymlinks": true, "chown": true, "lchown": true, "chmod": true, "setuser": true, "setumask": true, "sub": true, "mkdirtemp": true, "createtemp": true, "chtimes": true}
+	skip := map[string]bool{"chown": true, "lchown": true, "chmod": true, "setuser": true, "setumask": true, "sub": true, "mkdirtemp": true, "createtemp": true, "chtimes": true}
 	for k := 0; k < nh; k++ {
 		for _, fsn := range []string{"memfs", "orefafs"} {
 			_ = avfs.SetUMask(0o022)
@@ -112,10 +112,17 @@ func corrOstype(seed uint64, tier string, replay []string) *lib.Result {
 			}
 			ml, mw := newFsOn(lin), newFsOn(win)
 			mw.win = true
+			vol := ""
+			if wm, ok := win.(*memfs.MemFS); ok && r.Bool(50) {
+				// half of the MemFS histories run on an added volume: its root is not the root node of the file system
+				if err := wm.VolumeAdd("D:"); err == nil {
+					mw.winVol, vol = "D:", "|vol"
+				}
+			}
 			// the two types create different system directories: work below a common directory
 			ml.call("fs 0 mkdirall " + lib.Hex("/w") + " 511")
 			mw.call("fs 0 mkdirall " + lib.Hex("/w") + " 511")
-			g := &fsGen{r: r.Split(), impl: ml, opts: fsGenOpts{files: true, kernel: true}, nviews: 1}
+			g := &fsGen{r: r.Split(), impl: ml, opts: fsGenOpts{files: true, kernel: true, symlinks: fsn == "memfs"}, nviews: 1}
 			var hist lib.History
 			for i := 0; i < nl; i++ {
 				l := g.next()
@@ -139,7 +146,7 @@ func corrOstype(seed uint64, tier string, replay []string) *lib.Result {
 				if strings.HasPrefix(a, "ok h ") {
 					g.open = append(g.open, atoiS(strings.Fields(a)[2]))
 				}
-				st.Count(fsn+"|"+f[2]+"|"+okness(a), fsn+"|"+f[2]+"|"+okness(a))
+				st.Count(fsn+vol+"|"+f[2]+"|"+okness(a), fsn+vol+"|"+f[2]+"|"+okness(a))
 				bad := ""
 				if (a == "panic" || a == "hang") && a == b {
 					break // both emulations fail alike: a C07 finding of the file system, not an OS-type disagreement
